@@ -959,6 +959,21 @@ class Sut(object):
             if sorted(gcl) != sorted(p for p, c in exp.items() if c) or not all(x["crawled"] for x in gc):
                 out.append(D(["C05"], "webentity-crawled-pages", gid=gid, got=sorted(gcl)[:6]))
                 return
+        # "a page is listed under W iff resolving the page returns W": every page (at most 80 per audit) is also
+        # resolved through the resolution request itself, audit after audit (an answer remembered from an
+        # earlier audit must not survive the detachments in between)
+        plist = sorted(owner)
+        if len(plist) > 80:
+            plist = rng.sample(plist, 80)
+        for p_ in plist:
+            try:
+                gw = self.tr(t.retrieve_webentity(p_))
+            except TraphException:
+                gw = None
+            self.stats["C05_pages_resolved"] += 1
+            if gw != owner[p_][0]:
+                out.append(D(["C05"], "listing-and-resolution-disagree", lru=p_, resolves_to=gw, listed_under=owner[p_][0]))
+                return
         # the lazy per-webentity enumerations of two webentities advanced in turns must not disturb each other
         gl2 = sorted(byw)
         if len(gl2) >= 2 and hasattr(t, "webentity_page_nodes_iter"):
